@@ -15,6 +15,7 @@ definition, the equality no longer checks, and the proof stage fails — no samp
 import ast
 import hashlib
 import os
+import types
 import sys
 
 sys.path.insert(0, os.path.dirname(os.path.abspath(__file__)))
@@ -1706,6 +1707,141 @@ def _qtls_cases(rng, call):
     return out
 
 
+def _qs_cases(rng, call):
+    """QuicSession.decrypt_packet / handle_frame / handle_quic_packet (group QuicSess2) on a session made without `__init__`, with toy
+    decryptors, a toy `parse_frames` and toy `check_key_epoch` / `get_full_packet_number` / `set_largest_packet_number` — the same
+    functions as externals on the Lean side; observed: the data of the STREAM frames in the output buffer (the toy decryptor returns
+    its tag + the associated data), the epochs (the toys count there) and the CID sets"""
+    import importlib
+    qs = importlib.import_module("tlexport.quic.quic_session")
+    qp = importlib.import_module("tlexport.quic.quic_packet")
+    qf = importlib.import_module("tlexport.quic.quic_frame")
+    pts = {getattr(qp.QuicPacketType, k.split(".")[1]): v[0] for k, v in PTYPE.items()}
+    out = []
+
+    def rb(lo, hi):
+        return bytes(rng.randrange(256) for _ in range(rng.randint(lo, hi)))
+
+    def ob(x):
+        return "none" if x is None else f"(some {_b(x)})"
+
+    class Dec:
+        def __init__(self, tag):
+            self.tag = tag
+
+        def decrypt(self, payload, pn, aad, srv):
+            if self.tag == 9:
+                raise ValueError("tag")
+            if payload is None:
+                raise TypeError("payload")
+            return bytes([self.tag]) + aad
+
+    def ldec(d):
+        return f"({{ alg := TLX.Cipher.Alg.aesgcm, server := none, client := ⟨[{d.tag}], []⟩ }} : TLX.Quic.Session.Dec)"
+
+    def parse(payload, q):
+        if payload[0] == 7:
+            raise IndexError("frames")
+        f = object.__new__(qf.StreamFrame)
+        f.data, f.src_packet = payload, q
+        return [f]
+    HCF = "(fun st o => .ok () { st with epochClient := st.epochClient + 100 })"
+    CKE = "(fun st kp _ => .ok () { st with epochServer := st.epochServer + (if kp = some 1 then 1 else 0) })"
+    GFPN = "(fun st q => match q.pn with | some b => .ok b st | none => .raised .type st)"
+    SLPN = "(fun st _ _ => .ok () { st with epochClient := st.epochClient + 1000 })"
+    DEC = ("(fun d pl _ aad _ => if d.client.key = [9] then .error .value else match pl with | none => .error .type "
+           "| some _ => .ok (d.client.key ++ aad))")
+    PARSE = ("(fun pl q => if pl.head? = some 7 then .error .index else "
+             ".ok [⟨.parsed (.stream 0 0 false false false 0 0 0 pl), q.ts, q.isServer, q.ptype⟩])")
+    VIEW = ("(fun r => match r with | PyRt.Res.ok _ t => (t.out.map (fun o => match o.frame with "
+            "| .parsed (.stream _ _ _ _ _ _ _ _ d) => d | .versionNeg => [86] | _ => []), t.epochServer, t.epochClient, "
+            "t.serverCids.length, t.clientCids.length, t.decInitial.isSome, PyRt.Err.fuel) "
+            "| PyRt.Res.raised e t => (t.out.map (fun _ => []), t.epochServer, t.epochClient, t.serverCids.length, t.clientCids.length, t.decInitial.isSome, e))")
+
+    def session():
+        me = types.SimpleNamespace()
+        me.decryptors = {}
+        for k_ in ("Initial", "Handshake", "Early"):
+            if rng.random() < 0.7:
+                me.decryptors[k_] = Dec(rng.choice([1, 2, 7, 9]))
+        if rng.random() < 0.8:
+            me.decryptors["Application"] = [Dec(rng.choice([3, 4, 7, 9])) for _ in range(rng.randint(1, 2))]
+        me.epoch_server, me.epoch_client = rng.randint(0, 2), rng.randint(0, 2)
+        me.server_cids, me.client_cids = set(), set()
+        me.output_buffer = []
+        me.check_key_epoch = lambda kp, srv: setattr(me, "epoch_server", me.epoch_server + (1 if kp == 1 else 0))
+        me.get_full_packet_number = lambda q: bytes(q.packet_num)
+        me.set_largest_packet_number = lambda q, pn: setattr(me, "epoch_client", me.epoch_client + 1000)
+        me.handle_crypto_frame = lambda f: setattr(me, "epoch_client", me.epoch_client + 100)
+        me.handle_frame = lambda f: qs.QuicSession.handle_frame(me, f)
+        me.decrypt_packet = lambda q: qs.QuicSession.decrypt_packet(me, q)
+        me.keys, me.tls_session, me.hash_fun, me.cipher, me.key_length, me.alpn = {"k": b"1"}, None, 1, 1, 1, b"h3"
+        return me
+
+    def lstate(me):
+        d = me.decryptors
+        g = lambda k_: "none" if k_ not in d else f"(some {ldec(d[k_])})"
+        app = "none" if "Application" not in d else "(some [" + ", ".join(ldec(x) for x in d["Application"]) + "])"
+        return (f"({{ tls := (), decInitial := {g('Initial')}, decHandshake := {g('Handshake')}, decEarly := {g('Early')}, decApp := {app}, "
+                f"epochServer := {me.epoch_server}, epochClient := {me.epoch_client} }} : TLX.Quic.Session.St Unit)")
+
+    def packet():
+        short = rng.random() < 0.35
+        q = object.__new__(qp.ShortQuicPacket if short else qp.LongQuicPacket)
+        T = qp.QuicPacketType
+        q.packet_type = rng.choice([T.RTT_1] * 4 + [T.INITIAL] if short else [T.INITIAL, T.INITIAL, T.HANDSHAKE, T.RTT_O, T.RETRY, T.VERSION_NEG, T.RTT_1])
+        q.isserver, q.ts, q.key_phase = rng.random() < 0.5, rng.randint(0, 9), (rng.choice([0, 1]) if short else None)
+        q.first_byte, q.dcid = rb(1, 1), rb(0, 3)
+        opt = lambda v: None if rng.random() < 0.08 else v
+        if short:
+            pass                       # a ShortQuicPacket has none of the long-header attributes
+        else:
+            q.version, q.dcid_len, q.scid_len, q.scid = opt(rb(4, 4)), opt(rb(1, 1)), opt(rb(1, 1)), opt(rb(0, 2))
+            q.token_len_bytes, q.token, q.packet_len_bytes = opt(rb(1, 1)), opt(rb(0, 2)), opt(rb(1, 2))
+            q.supported_version = rb(4, 4)
+        q.packet_num, q.payload = opt(rb(1, 2)), opt(rb(1, 3))
+        g = lambda n_: getattr(q, n_, None)
+        lean = (f"({{ htype := TLX.Quic.HType.{'short' if short else 'long'}, ptype := {pts[q.packet_type]}, isServer := {_bool(q.isserver)}, ts := {q.ts}, "
+                f"firstByte := {_b(q.first_byte)}, version := {ob(g('version'))}, dcidLen := {ob(g('dcid_len'))}, dcid := {_b(q.dcid)}, scidLen := {ob(g('scid_len'))}, "
+                f"scid := {ob(g('scid'))}, tokenLenBytes := {ob(g('token_len_bytes'))}, token := {ob(g('token'))}, lenBytes := {ob(g('packet_len_bytes'))}, "
+                f"pn := {ob(q.packet_num)}, payload := {ob(q.payload)}, keyPhase := {'none' if q.key_phase is None else f'(some {q.key_phase})'} }} : TLX.Quic.Pkt)")
+        return q, lean
+
+    def view(me, err="fuel"):
+        datas = ", ".join(_b(f.data) if isinstance(f, qf.StreamFrame) else ("[86]" if isinstance(f, qf.PseudoVersionNegotiationFrame) else "[]")
+                          for f in me.output_buffer)
+        n = lambda st: len([x for x in st if x is not None])
+        return (f"([{datas}], {me.epoch_server}, {me.epoch_client}, {n(me.server_cids)}, {n(me.client_cids)}, "
+                f"{_bool('Initial' in me.decryptors)}, PyRt.Err.{err})")
+    saved = qs.parse_frames
+    qs.parse_frames = parse
+    try:
+        for _ in range(4):
+            me = session()
+            q, lq = packet()
+            before = lstate(me)
+            k, v = call(qs.QuicSession.decrypt_packet, me, q)
+            assert k == "ok"
+            out.append((f"(fun p s => {VIEW} (QS.decrypt_packet (σ := Unit) {HCF} {CKE} {GFPN} {SLPN} {DEC} {PARSE} p s))", f"{lq} {before}", view(me)))
+        for _ in range(3):
+            me = session()
+            qs_ = [packet() for _ in range(rng.randint(0, 3))]
+            me.packet_buffer_quic = [a for a, _ in qs_]
+            before = lstate(me)
+            k, v = call(qs.QuicSession.handle_quic_packet, me)
+            if k == "err":
+                # the view of a raise does not show the frame data
+                for f in me.output_buffer:
+                    f.data = b""
+                me.output_buffer = [f if isinstance(f, qf.StreamFrame) else types.SimpleNamespace() for f in me.output_buffer]
+            lst = "[" + ", ".join(b_ for _, b_ in qs_) + "]"
+            out.append((f"(fun ps s => {VIEW} (QS.handle_quic_packet (σ := Unit) {HCF} {CKE} {GFPN} {SLPN} {DEC} {PARSE} () ps s))", f"{lst} {before}",
+                        view(me, "fuel" if k == "ok" else v)))
+    finally:
+        qs.parse_frames = saved
+    return out
+
+
 def _sess_case(rng, ses, vers, call):
     """one call of one of the record handlers on a random session state → (lean name, arguments, expected)"""
     import types
@@ -2124,6 +2260,7 @@ def _cases(rng, n):
         out.extend(_ks_cases(rng, call))
         out.extend(_dec_cases(rng, call))
         out.extend(_qtls_cases(rng, call))
+        out.extend(_qs_cases(rng, call))
         for _ in range(2):
             out.extend(_bld_cases(rng, call))
         # output builders
